@@ -185,7 +185,23 @@ def run(ctx):
         if nx:
             it = qr.through_refs(nx[0][2][0], nm[0])
             ok = any(isinstance(x, tuple) and x[0] == 'field' and x[2] == 'name' and Fn.root_of(x) == ('deref', ('param', 1)) for x in walk(it))
-    rep.check(r3, ok, 'rr:name', 'rr.name is filled from an iteration over the question name: %s' % ok, qr.loc(nm[0]) if nm else '')
+    if not nm:
+        # the same copy written with a slice operation or a clone
+        def is_qname(e):
+            e = peel(e)
+            while is_call(e, r'Deref::deref$|as_slice$|as_ref$'):
+                e = peel(e[2][0])
+            if isinstance(e, tuple) and e[0] == 'entry':
+                e = e[1]
+            return isinstance(e, tuple) and Fn.path_of(e) == [('f', 'name')] and Fn.root_of(e) == ('deref', ('param', 1))
+        ext = [b for b, t in qr.calls(r'Vec::<[^>]*>::(extend_from_slice|append)$|Extend<[^>]*>>::extend$|Extend::extend$') if 'name' in short(qr.arg(b, 0))]
+        fw = [v for _, _, v in field_writes(qr, 'name')]
+        if len(ext) == 1 and not [v for v in fw if not is_call(peel(v, unwraps=False), r'Vec::<[^>]*>::new$')]:
+            ok = is_qname(qr.argv(ext[0], 1)) and ext[0] not in qr.reachable(qr.succ[ext[0]][0]) if qr.succ[ext[0]] else False
+            nm = ext
+        elif not ext and len(fw) == 1:
+            ok = is_qname(fw[0])
+    rep.check(r3, ok, 'rr:name', 'rr.name is a copy of the question name (byte loop, slice copy or clone): %s' % ok, qr.loc(nm[0]) if nm else '')
     # serializers
     rs = F.fn('%srr::<impl std::convert::From<&%srr::DNSRR> for std::vec::Vec<u8>>::from' % (D, D))
     it = vec_layout(rs)
